@@ -331,6 +331,40 @@ p_ini_file_is_parsed (const PIniFile *file)
 	return file->is_parsed;
 }
 
+/* Both list functions hand the list back as is when a node can't be allocated:
+ * the copy is released then, as nothing refers to it. */
+static PList *
+pp_ini_file_prepend_copy (PList *list, const pchar *str)
+{
+	pchar	*copy;
+	PList	*ret;
+
+	copy = p_strdup (str);
+	ret  = p_list_prepend (list, copy);
+
+	if (P_UNLIKELY (ret == list))
+		p_free (copy);
+
+	return ret;
+}
+
+static PList *
+pp_ini_file_append_copy (PList *list, const pchar *str)
+{
+	pchar	*copy;
+	PList	*ret;
+	PList	*last;
+
+	copy = p_strdup (str);
+	ret  = p_list_append (list, copy);
+	last = p_list_last (ret);
+
+	if (P_UNLIKELY (last == NULL || last->data != (ppointer) copy))
+		p_free (copy);
+
+	return ret;
+}
+
 P_LIB_API PList *
 p_ini_file_sections (const PIniFile *file)
 {
@@ -343,7 +377,7 @@ p_ini_file_sections (const PIniFile *file)
 	ret = NULL;
 
 	for (sec = file->sections; sec != NULL; sec = sec->next)
-		ret = p_list_prepend (ret, p_strdup (((PIniSection *) sec->data)->name));
+		ret = pp_ini_file_prepend_copy (ret, ((PIniSection *) sec->data)->name);
 
 	return ret;
 }
@@ -368,7 +402,7 @@ p_ini_file_keys (const PIniFile	*file,
 		return NULL;
 
 	for (item = ((PIniSection *) item->data)->keys; item != NULL; item = item->next)
-		ret = p_list_prepend (ret, p_strdup (((PIniParameter *) item->data)->name));
+		ret = pp_ini_file_prepend_copy (ret, ((PIniParameter *) item->data)->name);
 
 	return ret;
 }
@@ -507,7 +541,7 @@ p_ini_file_parameter_list (const PIniFile	*file,
 			buf[buf_cnt] = '\0';
 
 			if (buf_cnt > 0)
-				ret = p_list_append (ret, p_strdup (buf));
+				ret = pp_ini_file_append_copy (ret, buf);
 
 			buf_cnt = 0;
 		}
@@ -517,7 +551,7 @@ p_ini_file_parameter_list (const PIniFile	*file,
 
 	if (buf_cnt > 0) {
 		buf[buf_cnt] = '\0';
-		ret = p_list_append (ret, p_strdup (buf));
+		ret = pp_ini_file_append_copy (ret, buf);
 	}
 
 	p_free (val);
